@@ -194,17 +194,34 @@ func (u *c09Upstream) ServeDNS(ctx context.Context, rw dnsserver.ResponseWriter,
 	q := req.Question[0]
 	resp := (&dns.Msg{}).SetReply(req)
 	resp.RecursionAvailable = true
-	size := 0
-	fmt.Sscanf(strings.ToLower(q.Name), "s%d.", &size)
+	// s<N>: about N octets of answers; n<N>: a negative answer of that size,
+	// the bulk in the authority section (as signed denials are); x<N>: the
+	// bulk in the additional section.
+	size, where := 0, byte('s')
+	if lname := strings.ToLower(q.Name); lname != "" {
+		where = lname[0]
+		fmt.Sscanf(lname[1:], "%d.", &size)
+	}
+	if where == 'n' {
+		resp.Rcode = dns.RcodeNameError
+	}
 	for resp.Len() < size {
 		n := size - resp.Len()
 		if n > 200 {
 			n = 200
 		}
-		resp.Answer = append(resp.Answer, &dns.TXT{
+		rr := &dns.TXT{
 			Hdr: dns.RR_Header{Name: q.Name, Rrtype: dns.TypeTXT, Class: dns.ClassINET, Ttl: 10},
 			Txt: []string{strings.Repeat("x", n)},
-		})
+		}
+		switch where {
+		case 'n':
+			resp.Ns = append(resp.Ns, rr)
+		case 'x':
+			resp.Extra = append(resp.Extra, rr)
+		default:
+			resp.Answer = append(resp.Answer, rr)
+		}
 	}
 
 	return rw.WriteMsg(ctx, req, resp)
@@ -362,7 +379,8 @@ func runC09(s *kernel.Sim, _ string) {
 		req := &dns.Msg{}
 		req.Id = uint16(3000 + i)
 		req.RecursionDesired = true
-		req.Question = []dns.Question{{Name: fmt.Sprintf("s%d.q%d.example.", size, i), Qtype: qt, Qclass: dns.ClassINET}}
+		where := kernel.Pick(t, []string{"s", "s", "s", "n", "x"}, "bulk-section")
+		req.Question = []dns.Question{{Name: fmt.Sprintf("%s%d.q%d.example.", where, size, i), Qtype: qt, Qclass: dns.ClassINET}}
 		wr := &world.Request{Server: srvDNS, Remote: netip.AddrPortFrom(ip, 5353), Msg: req}
 		if !plain {
 			wr.Server = srvDoT
